@@ -4,7 +4,8 @@
   Generic over the arithmetic (`P` = f32 side, `F` = f64 side, DESIGN.md 3.3); no law is used here.
   Conventions of this file:
   * `CurveBuffers` is threaded explicitly **with its stale contents**: nothing is cleared unless the
-    Rust clears it (known defect F7: `calculate_path` returns before `path.clear()` on empty input).
+    Rust clears it (F7 — `calculate_path` used to return before `path.clear()` on empty input — is repaired
+    in /repo c94e1fc and the model mirrors the repaired order).
   * Every indexing / slicing / `usize` subtraction that can panic in Rust is an explicit read that
     yields `CErr.panic` when out of range (`getI`, `setI`, `sliceTo`, `usub`), so index safety is a
     theorem and not a convention. The harness is built with overflow checks, hence `usub`.
@@ -465,10 +466,11 @@ def segBody (fuel : Nat) (mode : GameMode) (points : List (PathControlPoint P)) 
       pure { path, optLen, bezier := bez, start := i }
 
 /-- `calculate_path`: returns the buffers and `optimized_len` (which `Curve::new` initialises to `0.0`).
-The early return for an empty list happens **before** `path.clear()` (F7). -/
+`path.clear()` and `*optimized_len = 0.0` happen **before** the early return for an empty list (F7, repaired
+in /repo c94e1fc); `vertices` and the Bezier scratch keep their stale contents in that case. -/
 def calculatePath (fuel : Nat) (mode : GameMode) (points : List (PathControlPoint P))
     (bufs : CurveBuffers P F) : Outcome (CurveBuffers P F × F) :=
-  if points.isEmpty then pure (bufs, 0)
+  if points.isEmpty then pure ({ bufs with path := [] }, 0)
   else do
     let vertices := points.map (·.pos)
     let st ← (List.range points.length).foldlM (segBody fuel mode points vertices)
